@@ -29,7 +29,11 @@ Record store := mkS {
   scap : Z;                    (* MaxSize *)
   nextid : Z;
   hits : Z; misses : Z;
-  sclosed : bool }.
+  sclosed : bool;
+  hyb : bool;                  (* a secondary cache is attached *)
+  sec : list (Z * (Z * Z * Z)); (* secondary cache: key -> (value, cost, expire) *)
+  hand : list Z;               (* hand-off queue to the secondary workers: entry ids *)
+  secerrs : Z }.               (* HandleAsyncError calls *)
 
 Definition reasonREMOVED : Z := 0. Definition reasonEVICTED : Z := 1. Definition reasonEXPIRED : Z := 2.
 
@@ -40,16 +44,20 @@ Definition map_get (m : list (Z * Z)) (k : Z) : option Z :=
 Definition map_del (m : list (Z * Z)) (k : Z) : list (Z * Z) := filter (fun kv => negb (fst kv =? k)) m.
 Definition map_set (m : list (Z * Z)) (k v : Z) : list (Z * Z) := (k, v) :: map_del m k.
 
-Definition set_ents (s : store) x := mkS x (smap s) (queue s) (pol s) (whl s) (rbuf s) (nowc s) (scap s) (nextid s) (hits s) (misses s) (sclosed s).
-Definition set_smap (s : store) x := mkS (ents s) x (queue s) (pol s) (whl s) (rbuf s) (nowc s) (scap s) (nextid s) (hits s) (misses s) (sclosed s).
-Definition set_queue (s : store) x := mkS (ents s) (smap s) x (pol s) (whl s) (rbuf s) (nowc s) (scap s) (nextid s) (hits s) (misses s) (sclosed s).
-Definition set_pol (s : store) x := mkS (ents s) (smap s) (queue s) x (whl s) (rbuf s) (nowc s) (scap s) (nextid s) (hits s) (misses s) (sclosed s).
-Definition set_whl (s : store) x := mkS (ents s) (smap s) (queue s) (pol s) x (rbuf s) (nowc s) (scap s) (nextid s) (hits s) (misses s) (sclosed s).
-Definition set_rbuf (s : store) x := mkS (ents s) (smap s) (queue s) (pol s) (whl s) x (nowc s) (scap s) (nextid s) (hits s) (misses s) (sclosed s).
-Definition set_nowc (s : store) x := mkS (ents s) (smap s) (queue s) (pol s) (whl s) (rbuf s) x (scap s) (nextid s) (hits s) (misses s) (sclosed s).
-Definition set_nextid (s : store) x := mkS (ents s) (smap s) (queue s) (pol s) (whl s) (rbuf s) (nowc s) (scap s) x (hits s) (misses s) (sclosed s).
-Definition set_counts (s : store) h m := mkS (ents s) (smap s) (queue s) (pol s) (whl s) (rbuf s) (nowc s) (scap s) (nextid s) h m (sclosed s).
-Definition set_closed (s : store) x := mkS (ents s) (smap s) (queue s) (pol s) (whl s) (rbuf s) (nowc s) (scap s) (nextid s) (hits s) (misses s) x.
+Definition set_ents (s : store) x := mkS x (smap s) (queue s) (pol s) (whl s) (rbuf s) (nowc s) (scap s) (nextid s) (hits s) (misses s) (sclosed s) (hyb s) (sec s) (hand s) (secerrs s).
+Definition set_smap (s : store) x := mkS (ents s) x (queue s) (pol s) (whl s) (rbuf s) (nowc s) (scap s) (nextid s) (hits s) (misses s) (sclosed s) (hyb s) (sec s) (hand s) (secerrs s).
+Definition set_queue (s : store) x := mkS (ents s) (smap s) x (pol s) (whl s) (rbuf s) (nowc s) (scap s) (nextid s) (hits s) (misses s) (sclosed s) (hyb s) (sec s) (hand s) (secerrs s).
+Definition set_pol (s : store) x := mkS (ents s) (smap s) (queue s) x (whl s) (rbuf s) (nowc s) (scap s) (nextid s) (hits s) (misses s) (sclosed s) (hyb s) (sec s) (hand s) (secerrs s).
+Definition set_whl (s : store) x := mkS (ents s) (smap s) (queue s) (pol s) x (rbuf s) (nowc s) (scap s) (nextid s) (hits s) (misses s) (sclosed s) (hyb s) (sec s) (hand s) (secerrs s).
+Definition set_rbuf (s : store) x := mkS (ents s) (smap s) (queue s) (pol s) (whl s) x (nowc s) (scap s) (nextid s) (hits s) (misses s) (sclosed s) (hyb s) (sec s) (hand s) (secerrs s).
+Definition set_nowc (s : store) x := mkS (ents s) (smap s) (queue s) (pol s) (whl s) (rbuf s) x (scap s) (nextid s) (hits s) (misses s) (sclosed s) (hyb s) (sec s) (hand s) (secerrs s).
+Definition set_nextid (s : store) x := mkS (ents s) (smap s) (queue s) (pol s) (whl s) (rbuf s) (nowc s) (scap s) x (hits s) (misses s) (sclosed s) (hyb s) (sec s) (hand s) (secerrs s).
+Definition set_counts (s : store) h m := mkS (ents s) (smap s) (queue s) (pol s) (whl s) (rbuf s) (nowc s) (scap s) (nextid s) h m (sclosed s) (hyb s) (sec s) (hand s) (secerrs s).
+Definition set_closed (s : store) x := mkS (ents s) (smap s) (queue s) (pol s) (whl s) (rbuf s) (nowc s) (scap s) (nextid s) (hits s) (misses s) x (hyb s) (sec s) (hand s) (secerrs s).
+Definition set_hyb (s : store) x := mkS (ents s) (smap s) (queue s) (pol s) (whl s) (rbuf s) (nowc s) (scap s) (nextid s) (hits s) (misses s) (sclosed s) x (sec s) (hand s) (secerrs s).
+Definition set_sec (s : store) x := mkS (ents s) (smap s) (queue s) (pol s) (whl s) (rbuf s) (nowc s) (scap s) (nextid s) (hits s) (misses s) (sclosed s) (hyb s) x (hand s) (secerrs s).
+Definition set_hand (s : store) x := mkS (ents s) (smap s) (queue s) (pol s) (whl s) (rbuf s) (nowc s) (scap s) (nextid s) (hits s) (misses s) (sclosed s) (hyb s) (sec s) x (secerrs s).
+Definition set_secerrs (s : store) x := mkS (ents s) (smap s) (queue s) (pol s) (whl s) (rbuf s) (nowc s) (scap s) (nextid s) (hits s) (misses s) (sclosed s) (hyb s) (sec s) (hand s) x.
 
 Definition upd_ent (s : store) (id : Z) (f : sentry -> sentry) : store :=
   set_ents s (map (fun e => if sid e =? id then f e else e) (ents s)).
@@ -79,6 +87,9 @@ Definition removeEntry (s : store) (id reason now : Z) : store * list Z :=
       let s := if scheduled (whl s) id then set_whl s (deschedule (whl s) id) else s in
       if reason =? reasonREMOVED then
         (upd_ent s id (fun e => e_deleted e true), [skey e; sval e; reasonREMOVED])
+      else if (reason =? reasonEVICTED) && hyb s && negb (f_nvm e) && (Z.of_nat (length (hand s)) <? 256) then
+        (* handed to a secondary-cache worker (admission probability 1): stays in the map until written *)
+        (set_hand s (hand s ++ [id]), [])
       else
         match map_get (smap s) (skey e) with
         | Some id' => if id' =? id then (set_smap s (map_del (smap s) (skey e)), [skey e; sval e; reason])
@@ -118,6 +129,7 @@ Definition sinkWrite (s : store) (it : witem) (now a0 rnd : Z) : store * list Z 
       else
         let s := if wresched it && (sexpire e =? 0) && scheduled (whl s) (wsid it)
                  then set_whl s (deschedule (whl s) (wsid it)) else s in
+        let s := upd_ent s (wsid it) (fun e => e_nvm e false) in
         let w := s64 (spw e + wcost it) in
         let s := upd_ent s (wsid it) (fun e => e_pw e w) in
         let s := if wresched it && negb (sexpire e =? 0) then set_whl s (schedule (whl s) (wsid it) (sexpire e)) else s in
@@ -208,6 +220,15 @@ Definition sget (s : store) (k now a0 : Z) : store * list Z :=
 (* ---------- write path: the shard section, then the event ---------- *)
 Definition send (s : store) (it : witem) : store := set_queue s (queue s ++ [it]).
 
+Definition sec_get (s : store) (k : Z) : option (Z * Z * Z) :=
+  match find (fun kv => fst kv =? k) (sec s) with Some kv => Some (snd kv) | None => None end.
+Definition sec_del (s : store) (k : Z) : store := set_sec s (filter (fun kv => negb (fst kv =? k)) (sec s)).
+Definition sec_put (s : store) (k v c x : Z) : store :=
+  set_sec s ((k, (v, c, x)) :: filter (fun kv => negb (fst kv =? k)) (sec s)).
+
+(* a user write supersedes the secondary copy (invalidateSecondary) *)
+Definition invalidate (s : store) (k : Z) (nvm : bool) : store := if hyb s && negb nvm then sec_del s k else s.
+
 (* setShardWithoutLock + toPolicy; dk = doorkeeper verdict for a new key (true: pass).
    Returns the state, Set's return value, and whether the write took effect. *)
 Definition set_section (s : store) (k v cost expire now h : Z) (dk nvm : bool) : store * bool * bool :=
@@ -218,14 +239,14 @@ Definition set_section (s : store) (k v cost expire now h : Z) (dk nvm : bool) :
       | None => (s, true, false)
       | Some e =>
           let '(ex, resched) := updateExpire (sexpire e) expire now in
-          let s := upd_ent s id (fun e => e_weight (e_val (e_expire e ex) v) cost) in
+          let s := invalidate (upd_ent s id (fun e => e_weight (e_val (e_expire e ex) v) cost)) k nvm in
           (send s (mkW cUPDATE id (s64 (cost - sweight e)) resched false h), true, true)
       end
   | None =>
       if negb dk then (s, false, false) else
       let id := nextid s in
       let e := mkE id k v cost expire 0 h false false false in
-      let s := set_nextid (set_smap (set_ents s (e :: ents s)) (map_set (smap s) k id)) (id + 1) in
+      let s := invalidate (set_nextid (set_smap (set_ents s (e :: ents s)) (map_set (smap s) k id)) (id + 1)) k nvm in
       (send s (mkW cNEW id cost false nvm h), true, true)
   end.
 
@@ -260,6 +281,81 @@ Definition sload3 (s : store) (k now a0 h : Z) (err : bool) (v cost ttl : Z) (dk
   end.
 Definition sload (s : store) (k now a0 h : Z) (err : bool) (v cost ttl : Z) (dk : bool) : store * list Z :=
   let '(s', o, _) := sload3 s k now a0 h err v cost ttl dk in (s', o).
+
+(* ---------- hybrid: secondary cache ---------- *)
+(* a worker takes the oldest hand-off item; okset = the secondary Set succeeds *)
+Definition worker_step (s : store) (okset : bool) : store :=
+  match hand s with
+  | [] => s
+  | id :: rest =>
+      let s := set_hand s rest in
+      match get_ent s id with
+      | None => s
+      | Some e =>
+          match map_get (smap s) (skey e) with
+          | Some id' =>
+              if id' =? id then
+                let s := if okset then sec_put s (skey e) (sval e) (sweight e) (sexpire e)
+                         else set_secerrs s (secerrs s + 1) in
+                set_smap s (map_del (smap s) (skey e))
+              else s
+          | None => s
+          end
+      end
+  end.
+
+(* HybridCache.Get: memory, then the secondary cache with promotion *)
+Definition hget (s : store) (k now h : Z) (dk : bool) : store * list Z :=
+  match lookup_live s k now with
+  | Some e => (s, [1; sval e])
+  | None =>
+      match sec_get s k with
+      | None => (s, [0; 0])
+      | Some (v, c, x) =>
+          if negb (x =? 0) && (x <=? now) then (sec_del s k, [0; 0])
+          else let '(s', _, _) := set_section s k v c x now h dk true in (s', [1; v])
+      end
+  end.
+
+Definition hdelete (s : store) (k h : Z) : store :=
+  if sclosed s then s else
+  let s1 := match map_get (smap s) k with
+            | Some id => send (set_smap s (map_del (smap s) k)) (mkW cREMOVE id 0 false false h)
+            | None => s end in
+  sec_del s1 k.
+
+(* hybrid loading Get *)
+Definition hload (s : store) (k now a0 h : Z) (err : bool) (v cost ttl : Z) (dk : bool) : store * list Z :=
+  match lookup_live s k now with
+  | Some e => (record_hit (set_counts s (hits s + 1) (misses s)) (sid e) (shash e) a0, [1; sval e])
+  | None =>
+      let s := set_counts s (hits s) (misses s + 1) in
+      if sclosed s then (s, [3; 0]) else
+      let fromsec := match sec_get s k with
+                     | Some (v2, c2, x2) => if negb (x2 =? 0) && (x2 <=? now) then None else Some (v2, c2, x2)
+                     | None => None end in
+      let s := match sec_get s k with
+               | Some (_, _, x2) => if negb (x2 =? 0) && (x2 <=? now) then sec_del s k else s
+               | None => s end in
+      match fromsec with
+      | Some (v2, c2, x2) => let '(s', _, _) := set_section s k v2 c2 x2 now h dk true in (s', [1; v2])
+      | None =>
+          if err then (s, [2; 0]) else
+          let expire := setExpire now ttl in
+          let cost := if cost =? 0 then 1 else cost in
+          if s64 (scap s) <? cost then (s, [0; v])
+          else (fst (fst (set_section s k v cost expire now h dk false)), [0; v])
+      end
+  end.
+
+Fixpoint ins_sec (kv : Z * (Z * Z * Z)) (l : list (Z * (Z * Z * Z))) : list (Z * (Z * Z * Z)) :=
+  match l with
+  | [] => [kv]
+  | x :: r => if fst kv <=? fst x then kv :: l else x :: ins_sec kv r
+  end.
+Definition secdump (s : store) : list Z :=
+  [Z.of_nat (length (hand s)); secerrs s] ++
+  flat_map (fun kv => let '(v, c, x) := snd kv in [fst kv; v; c; x]) (fold_right ins_sec [] (sec s)).
 
 (* ---------- views ---------- *)
 Fixpoint insert_sorted (kv : Z * Z) (l : list (Z * Z)) : list (Z * Z) :=
@@ -298,7 +394,7 @@ Definition sdump (s : store) : list Z :=
   ++ [-4] ++ map (key_of s) (ids (prot (pol s))).
 
 Definition newStore (cap wcap pcap now : Z) : store :=
-  mkS [] [] [] (newPolicy cap wcap pcap) (newWheel now) [] now cap 0 0 0 false.
+  mkS [] [] [] (newPolicy cap wcap pcap) (newWheel now) [] now cap 0 0 0 false false [] [] 0.
 
 (* ---------- integer-list interface ----------
    cfg [cap; windowCap; protectedCap; now]
@@ -315,7 +411,10 @@ Definition newStore (cap wcap pcap now : Z) : store :=
    [10;now]                the ticker refreshes the cached clock
    [11;k;now]              the wheel visits a live entry on a stale deadline reading
    [12;w]                  Wait: waiter w queues its marker
-   [13;n;now;a0;rnd]       the maintenance loop drains a batch of n items -> notifications, -5, released waiters *)
+   [13;n;now;a0;rnd]       the maintenance loop drains a batch of n items -> notifications, -5, released waiters
+   hybrid (cfg has a 5th element 1):
+   [14;ok] a worker processes the oldest hand-off item   [15;k;now;h;dk] HybridCache.Get -> [hit; value]
+   [16;k;h] HybridCache.Delete   [17;...] hybrid loading Get (code 4 = from the secondary cache)   [18] secondary dump *)
 Definition st_step (s : store) (op : list Z) : store * list Z :=
   match op with
   | [0; k; now; a0] => sget s k now a0
@@ -329,6 +428,12 @@ Definition st_step (s : store) (op : list Z) : store * list Z :=
   | [8; k; now; a0; h; err; v; cost; ttl; dk] => sload s k now a0 h (negb (err =? 0)) v cost ttl (negb (dk =? 0))
   | [9] => (set_closed (set_smap s []) true, [])
   | [10; now] => (set_nowc s now, [])
+  | [14; okset] => (worker_step s (negb (okset =? 0)), [])
+  | [15; k; now; h; dk] => hget s k now h (negb (dk =? 0))
+  | [16; k; h] => (hdelete s k h, [])
+  | [17; k; now; a0; h; err; v; cost; ttl; dk] => hload s k now a0 h (negb (err =? 0)) v cost ttl (negb (dk =? 0))
+  | [18] => (s, secdump s)
+  | [19] => (s, [Z.of_nat (length (queue s))])
   | [12; w] => (if sclosed s then s else send s (mkW cWAIT w 0 false false 0), [])
   | [13; n; now; a0; rnd] => drain_batch s n now a0 rnd
   | [11; k; now] =>
@@ -339,4 +444,7 @@ Definition st_step (s : store) (op : list Z) : store * list Z :=
   | _ => (s, [-1])
   end.
 Definition st_init (cfg : list Z) : store :=
-  match cfg with [c; wc; pc; now] => newStore c wc pc now | _ => newStore 1 1 0 0 end.
+  match cfg with
+  | [c; wc; pc; now] => newStore c wc pc now
+  | [c; wc; pc; now; hy] => set_hyb (newStore c wc pc now) (negb (hy =? 0))
+  | _ => newStore 1 1 0 0 end.
